@@ -180,8 +180,8 @@ fn strategy(tier: Tier) -> BoxedStrategy<Case> {
         .boxed()
 }
 
-fn long_strategy() -> BoxedStrategy<Case> {
-    cfg_among(&KINDS, 1024, multiplier_any)
+fn long_strategy(cap: usize) -> BoxedStrategy<Case> {
+    cfg_among(&KINDS, cap, multiplier_any)
         .prop_flat_map(|cfg| (Just(cfg), multi_stream(Domain::AnySign, 10_000, 20_000)))
         .prop_map(|(cfg, s)| Case { cfg, xs: xs(&s.vals), resets: vec![] })
         .boxed()
@@ -212,7 +212,7 @@ pub fn run(g: &mut Global) {
     );
     let tier = g.tier;
     g.random("random", g.tier.pick(30000, 200000), &move || strategy(tier), &check);
-    if g.tier == Tier::Thorough {
-        g.random("long", 1000, &long_strategy, &check);
-    }
+    // streams of 10 000 .. 20 000 inputs (hundreds of wrap-arounds); quick keeps the periods small
+    let cap = g.tier.pick(48usize, 1024usize);
+    g.random("long", g.tier.pick(64, 1000), &move || long_strategy(cap), &check);
 }
